@@ -396,6 +396,7 @@ func init() {
 		for i := 0; i < n; i++ {
 			c16Case(o, rng.Fork())
 		}
+		c16FixedTable(o)
 	}
 }
 
@@ -418,4 +419,53 @@ func firstDiff(x, y string) string {
 		hy = len(y)
 	}
 	return "A: " + x[lo:hx] + "\nB: " + y[lo:hy]
+}
+
+// ---- fixed table: arrangements that used to disagree --------------------------------------------------
+//
+// Each entry is one definition set arranged as one document and as successive loads; both arrangements must be
+// all accepted or all rejected and, when accepted, define the same schema.  (Found by a sub-agent looking for a
+// C16 seed: the parser only knows the definitions of *earlier* loads, so whatever it decides while scanning —
+// filling in directive-argument defaults, binding `@foo` to a type named foo, needing a schema to extend —
+// depended on the split.)
+var c16Table = []struct {
+	name string
+	one  string
+	many []string
+}{
+	{"required-directive-argument-left-out",
+		"directive @need(n: Int!) on OBJECT\ntype Query @need { a: Int }",
+		[]string{"directive @need(n: Int!) on OBJECT", "type Query @need { a: Int }"}},
+	{"required-directive-argument-left-out-directive-last",
+		"type Query @need { a: Int }\ndirective @need(n: Int!) on OBJECT",
+		[]string{"directive @need(n: Int!) on OBJECT", "type Query @need { a: Int }"}},
+	{"required-directive-argument-given",
+		"directive @need(n: Int!) on OBJECT\ntype Query @need(n: 2) { a: Int }",
+		[]string{"directive @need(n: Int!) on OBJECT", "type Query @need(n: 2) { a: Int }"}},
+	{"directive-and-type-share-a-name",
+		"directive @foo on OBJECT\ntype foo { b: Int }\ntype Query @foo { a: foo }",
+		[]string{"directive @foo on OBJECT\ntype foo { b: Int }", "type Query @foo { a: foo }"}},
+	{"directive-and-type-share-a-name-three-loads",
+		"directive @foo on OBJECT\ntype foo { b: Int }\ntype Query @foo { a: foo }",
+		[]string{"type foo { b: Int }", "directive @foo on OBJECT", "type Query @foo { a: foo }"}},
+	{"extend-implied-schema",
+		"type Query { a: Int }\ntype M { b: Int }\nextend schema { mutation: M }",
+		[]string{"type Query { a: Int }\ntype M { b: Int }", "extend schema { mutation: M }"}},
+	{"extend-implied-schema-extension-first",
+		"extend schema { mutation: M }\ntype Query { a: Int }\ntype M { b: Int }",
+		[]string{"type M { b: Int }", "type Query { a: Int }", "extend schema { mutation: M }"}},
+}
+
+func c16FixedTable(o *Out) {
+	for _, e := range c16Table {
+		a, b := c16Observe([]string{e.one}), c16Observe(e.many)
+		same := a.ok && b.ok && canonSDL(a.sdl, false) == canonSDL(b.sdl, false) && canon(a.intro) == canon(b.intro)
+		o.Count("arrangement=fixed-table")
+		o.Emit(Case{
+			Term: N("c16t", A(e.name)),
+			Obs:  N("obs", B(a.ok), B(b.ok), B(same)),
+			Meta: map[string]interface{}{"arrangement": "fixed-table " + e.name, "docs": e.many, "one_document": e.one, "sdl_one": a.sdl, "sdl_many": b.sdl},
+			Nontrivial: true,
+		})
+	}
 }
